@@ -113,3 +113,18 @@ Example C09_ex_printed :
   Qred (nprint (F8 (15 # 1000000000))) = 1 # 50000000 /\
   nprint (Fi (-(1 # 2))) = 0.
 Proof. vm_compute. repeat split. Qed.
+
+(* ======================= the whole pipeline (Render/Pipeline.v) ========================
+   Both documents that the export pipeline produces from one raw input describe the
+   same picture (picture_sim as above), for EVERY input on which it returns (by
+   C07_pipeline_total: every documented input) whose colour options yield valid
+   codes: a constant code, every entry of a non-empty list, the value of a function
+   option on every datum.  No hypothesis about the scene is left: the labels'
+   chains are non-empty by construction of the engine adapter. *)
+From Labella Require Import Render.Axis Render.Pipeline Render.PipelineProofs.
+
+Theorem C09_pipeline_same_geometry : forall r s,
+  pipeline_scene r = AOk s -> raw_colours_valid r ->
+  picture_sim (geom_svg (svg_doc_of s)) (geom_tikz (tikz_doc_of s)).
+Proof. exact pipeline_same_geometry. Qed.
+Print Assumptions C09_pipeline_same_geometry.
